@@ -1,15 +1,34 @@
 //! C19 — trading start time. The REAL factory + minter + collection (all 11 minter crates, 4 collection crates, created
-//! through the factory) vs `LP.TT` (Lean). Protocol: see lean/LaunchpadModel/Driver/C19.lean.
+//! through the factory) vs `LP.TT.stepX` (Lean). Protocol: see lean/LaunchpadModel/Driver/C19.lean.
+//!
+//! Round 3:
+//! * GHOST bookkeeping. The monitors transcribe the property from what the harness itself sent: the offset governance last set
+//!   EXPLICITLY (`g_off`: instantiate value, then every sudo / factory-migrate that names one — a partial update that omits it
+//!   keeps it), the mint start it requested (`g_start`: creation argument, then every accepted UpdateStartTime), the block time
+//!   it set, the admin / creator it installed, the last minter-validated trading time. No bound is taken from a query answer.
+//! * Run-time message surface: every `ExecuteMsg` variant of the collection crate and of the minter crate (JSON schemas,
+//!   `schema_for!`), the minter's sudo messages, and migrations of factory / minter / collection are SENT (raw JSON built from the
+//!   schema, optional fields populated one by one and all together) under the monitors.
+//! * Projection: ` ## ` separates what C19 constrains from what other properties own (end time, acceptance rules of
+//!   UpdateStartTime / UpdateEndTime / UpdateCollectionInfo / Freeze / the non-bound creation rules: witnessed with `acc=`).
+//! * Addresses: the minter contract, the collection and the factory have SYMBOLIC ids (999 / 998 / 997) that the harness maps to
+//!   whatever address cw-multi-test hands out; ownership is read through `cw_ownable::get_ownership` (typed), not a raw key.
+use cosmwasm_std::Addr;
 use lp_harness::minters::*;
-use lp_harness::world::{addr, addr_id};
+use lp_harness::world::addr;
 use lp_harness::*;
-use serde_json::{json, Value};
+use serde_json::{json, Map, Value};
 
 const NS: u64 = 1_000_000_000;
 const DAY: u64 = 86_400 * NS;
 const CREATOR: u64 = 10;
 const CREATOR2: u64 = 11;
 const STRANGER: u64 = 20;
+const GOV: u64 = 90;
+/// symbolic ids (never produced by `world::addr_id`): the minter contract / the collection / the factory of the case
+const MINTER_ID: u64 = 999;
+const COLL_ID: u64 = 998;
+const FACTORY_ID: u64 = 997;
 
 const COLL_NAMES: [&str; 4] = ["sg721-base", "sg721-updatable", "sg721-nt", "sg721-metadata-onchain"];
 fn coll_kind(i: u64) -> CollKind {
@@ -20,6 +39,288 @@ fn coll_kind(i: u64) -> CollKind {
         _ => CollKind::Base,
     }
 }
+
+// ---------------------------------------------------------------------------------------------------- run-time message surface
+
+/// collection messages with a NAMED op (`update_collection_info` is additionally sent raw with every other field populated)
+const KNOWN_COLL: [&str; 4] = ["update_start_trading_time", "freeze_collection_info", "update_ownership", "update_collection_info"];
+/// minter messages with a named op
+const KNOWN_MINTER: [&str; 3] = ["update_start_trading_time", "update_start_time", "update_end_time"];
+
+fn to_v<T: serde::Serialize>(x: T) -> Value {
+    serde_json::to_value(x).expect("schema to json")
+}
+fn coll_schema(ck: CollKind) -> Value {
+    use cosmwasm_schema::schema_for;
+    match ck {
+        CollKind::Base => to_v(schema_for!(sg721_base::ExecuteMsg)),
+        CollKind::Updatable => to_v(schema_for!(sg721_updatable::msg::ExecuteMsg<cw721_base::Extension, cosmwasm_std::Empty>)),
+        CollKind::Nt => to_v(schema_for!(sg721_nt::msg::ExecuteMsg<cw721_base::Extension>)),
+        CollKind::MetadataOnchain => to_v(schema_for!(sg721_metadata_onchain::ExecuteMsg)),
+    }
+}
+fn minter_schema(kind: MinterKind) -> Value {
+    use cosmwasm_schema::schema_for;
+    match kind {
+        MinterKind::Vending => to_v(schema_for!(vending_minter::msg::ExecuteMsg)),
+        MinterKind::VendingFeatured => to_v(schema_for!(vending_minter_featured::msg::ExecuteMsg)),
+        MinterKind::VendingFlex => to_v(schema_for!(vending_minter_wl_flex::msg::ExecuteMsg)),
+        MinterKind::VendingFlexFeatured => to_v(schema_for!(vending_minter_wl_flex_featured::msg::ExecuteMsg)),
+        MinterKind::VendingMerkle => to_v(schema_for!(vending_minter_merkle_wl::msg::ExecuteMsg)),
+        MinterKind::VendingMerkleFeatured => to_v(schema_for!(vending_minter_merkle_wl_featured::msg::ExecuteMsg)),
+        MinterKind::OpenEdition => to_v(schema_for!(open_edition_minter::msg::ExecuteMsg)),
+        MinterKind::OpenEditionFlex => to_v(schema_for!(open_edition_minter_wl_flex::msg::ExecuteMsg)),
+        MinterKind::OpenEditionMerkle => to_v(schema_for!(open_edition_minter_merkle_wl::msg::ExecuteMsg)),
+        MinterKind::TokenMerge => to_v(schema_for!(token_merge_minter::msg::ExecuteMsg)),
+        MinterKind::Base => to_v(schema_for!(base_minter::msg::ExecuteMsg)),
+    }
+}
+fn minter_sudo_schema() -> Value {
+    to_v(cosmwasm_schema::schema_for!(sg4::SudoMsg))
+}
+fn factory_schema(fk: FactoryKind) -> Value {
+    use cosmwasm_schema::schema_for;
+    match fk {
+        FactoryKind::Vending => to_v(schema_for!(vending_factory::msg::ExecuteMsg)),
+        FactoryKind::OpenEdition => to_v(schema_for!(open_edition_factory::msg::ExecuteMsg)),
+        FactoryKind::TokenMerge => to_v(schema_for!(token_merge_factory::msg::ExecuteMsg)),
+        FactoryKind::Base => to_v(schema_for!(base_factory::msg::ExecuteMsg)),
+    }
+}
+
+fn factory_sudo_schema(fk: FactoryKind) -> Value {
+    use cosmwasm_schema::schema_for;
+    match fk {
+        FactoryKind::Vending => to_v(schema_for!(vending_factory::msg::SudoMsg)),
+        FactoryKind::OpenEdition => to_v(schema_for!(open_edition_factory::msg::SudoMsg)),
+        FactoryKind::TokenMerge => to_v(schema_for!(token_merge_factory::msg::SudoMsg)),
+        FactoryKind::Base => to_v(schema_for!(base_factory::msg::BaseSudoMsg)),
+    }
+}
+
+/// (variant name in snake case, schema of its payload; None for a unit variant serialised as a bare string)
+fn schema_variants(root: &Value) -> Vec<(String, Option<Value>)> {
+    let mut out = vec![];
+    let mut alts: Vec<Value> = vec![];
+    for k in ["oneOf", "anyOf"] {
+        if let Some(a) = root[k].as_array() {
+            alts.extend(a.iter().cloned());
+        }
+    }
+    if alts.is_empty() {
+        alts.push(root.clone());
+    }
+    for alt in alts {
+        if let Some(en) = alt["enum"].as_array() {
+            for e in en {
+                if let Some(s) = e.as_str() {
+                    out.push((s.to_string(), None));
+                }
+            }
+        } else if let Some(req) = alt["required"].as_array() {
+            if let Some(name) = req.first().and_then(|x| x.as_str()) {
+                out.push((name.to_string(), Some(alt["properties"][name].clone())));
+            }
+        }
+    }
+    out.sort_by(|a, b| a.0.cmp(&b.0));
+    out.dedup_by(|a, b| a.0 == b.0);
+    out
+}
+
+/// which OPTIONAL fields get a value: none (all `null`), the one named, or all of them. `creator` is never populated here
+/// (changing the creator is the named op `coll_creator`).
+#[derive(Clone, Debug, PartialEq)]
+enum Pop {
+    None,
+    Field(String),
+    All,
+}
+impl Pop {
+    fn wants(&self, name: &str) -> bool {
+        name != "creator"
+            && match self {
+                Pop::None => false,
+                Pop::Field(f) => f == name,
+                Pop::All => true,
+            }
+    }
+    fn parse(s: &str) -> Pop {
+        match s {
+            "-" | "" => Pop::None,
+            "*" => Pop::All,
+            f => Pop::Field(f.to_string()),
+        }
+    }
+}
+
+fn is_nullable(s: &Value) -> bool {
+    for key in ["anyOf", "oneOf"] {
+        if let Some(a) = s[key].as_array() {
+            if a.iter().any(|x| x["type"] == "null") {
+                return true;
+            }
+        }
+    }
+    matches!(&s["type"], Value::Array(ts) if ts.iter().any(|t| t == "null"))
+}
+/// the non-null alternative of a nullable schema
+fn non_null(s: &Value) -> Value {
+    for key in ["anyOf", "oneOf"] {
+        if let Some(a) = s[key].as_array() {
+            if let Some(x) = a.iter().find(|x| x["type"] != "null") {
+                return x.clone();
+            }
+        }
+    }
+    if let Value::Array(ts) = &s["type"] {
+        let mut c = s.clone();
+        c["type"] = ts.iter().find(|t| *t != "null").cloned().unwrap_or(Value::Null);
+        return c;
+    }
+    s.clone()
+}
+
+/// a JSON value for a schema: integers = k, plain strings = k, addresses / urls / decimals / binaries by name; optional fields
+/// according to `pop`
+fn fill(s: &Value, defs: &Value, k: u64, hint: &str, depth: u32, pop: &Pop) -> Value {
+    if depth > 10 {
+        return Value::Null;
+    }
+    if let Some(r) = s["$ref"].as_str() {
+        let name = r.rsplit('/').next().unwrap_or("");
+        return match name {
+            "Decimal" => json!("0.01"),
+            "Binary" => json!("e30="),
+            "Addr" => json!(addr(STRANGER)),
+            _ => fill(&defs[name], defs, k, hint, depth + 1, pop),
+        };
+    }
+    if let Some(a) = s["allOf"].as_array() {
+        if let Some(f) = a.first() {
+            return fill(f, defs, k, hint, depth + 1, pop);
+        }
+    }
+    if is_nullable(s) {
+        // reached only for nullable values that are not object properties (tuple variants, e.g. `UpdateStartTradingTime(Option<_>)`)
+        return if pop.wants(hint) { fill(&non_null(s), defs, k, hint, depth + 1, pop) } else { Value::Null };
+    }
+    for key in ["anyOf", "oneOf"] {
+        if let Some(a) = s[key].as_array() {
+            if let Some(f) = a.first() {
+                if let Some(en) = f["enum"].as_array() {
+                    return en.first().cloned().unwrap_or(Value::Null);
+                }
+                if let Some(req) = f["required"].as_array().and_then(|r| r.first()).and_then(|x| x.as_str()) {
+                    let mut m = Map::new();
+                    m.insert(req.to_string(), fill(&f["properties"][req], defs, k, req, depth + 1, pop));
+                    return Value::Object(m);
+                }
+                return fill(f, defs, k, hint, depth + 1, pop);
+            }
+        }
+    }
+    if let Some(en) = s["enum"].as_array() {
+        return en.first().cloned().unwrap_or(Value::Null);
+    }
+    let ty: String = match &s["type"] {
+        Value::String(t) => t.clone(),
+        Value::Array(ts) => ts.first().and_then(|t| t.as_str()).unwrap_or("").to_string(),
+        _ => String::new(),
+    };
+    match ty.as_str() {
+        "integer" | "number" => json!(k),
+        "string" => {
+            let h = hint.to_lowercase();
+            if ["addr", "recipient", "whitelist", "contract", "owner", "sender", "admin", "spender", "operator", "creator"].iter().any(|w| h.contains(w)) {
+                json!(addr(STRANGER))
+            } else if ["image", "link", "uri", "url"].iter().any(|w| h.contains(w)) {
+                json!(format!("https://example.com/{k}.png"))
+            } else {
+                json!(k.to_string())
+            }
+        }
+        "boolean" => json!(k % 2 == 1),
+        "array" => json!([]),
+        "object" => {
+            let mut m = Map::new();
+            let req: Vec<String> = s["required"].as_array().map(|r| r.iter().filter_map(|x| x.as_str().map(String::from)).collect()).unwrap_or_default();
+            if let Some(props) = s["properties"].as_object() {
+                for (name, ps) in props {
+                    if is_nullable(ps) {
+                        if pop.wants(name) {
+                            m.insert(name.clone(), fill(&non_null(ps), defs, k, name, depth + 1, pop));
+                        } else if req.contains(name) {
+                            m.insert(name.clone(), Value::Null);
+                        }
+                    } else if req.contains(name) || pop.wants(name) {
+                        m.insert(name.clone(), fill(ps, defs, k, name, depth + 1, pop));
+                    }
+                }
+            }
+            Value::Object(m)
+        }
+        _ => Value::Null,
+    }
+}
+
+/// names of the optional fields reachable in a variant's payload (one level of `$ref` objects deep is enough for the crates)
+fn optional_fields(s: &Value, defs: &Value, depth: u32, out: &mut Vec<String>) {
+    if depth > 6 {
+        return;
+    }
+    if let Some(r) = s["$ref"].as_str() {
+        let name = r.rsplit('/').next().unwrap_or("");
+        return optional_fields(&defs[name], defs, depth + 1, out);
+    }
+    if let Some(a) = s["allOf"].as_array() {
+        for x in a {
+            optional_fields(x, defs, depth + 1, out);
+        }
+    }
+    if let Some(props) = s["properties"].as_object() {
+        for (name, ps) in props {
+            if is_nullable(ps) {
+                if name != "creator" && !out.contains(name) {
+                    out.push(name.clone());
+                }
+            } else {
+                optional_fields(ps, defs, depth + 1, out);
+            }
+        }
+    }
+}
+
+/// raw message for a variant found in a schema
+fn raw_variant_msg(root: &Value, name: &str, k: u64, pop: &Pop) -> Option<Value> {
+    let defs = &root["definitions"];
+    schema_variants(root).into_iter().find(|(n, _)| n == name).map(|(n, sch)| match sch {
+        None => Value::String(n),
+        Some(s) => {
+            let mut m = Map::new();
+            m.insert(n.clone(), fill(&s, defs, k, &n, 0, pop));
+            Value::Object(m)
+        }
+    })
+}
+/// `{"<variant>": <payload>}` or the bare string for a unit variant — the SHAPE comes from the schema
+fn shaped(root: &Value, name: &str, payload: Value) -> Value {
+    match schema_variants(root).into_iter().find(|(n, _)| n == name) {
+        Some((n, None)) => Value::String(n),
+        _ => {
+            let mut m = Map::new();
+            m.insert(name.to_string(), payload);
+            Value::Object(m)
+        }
+    }
+}
+/// the single property name of a struct variant's payload (`collection_info` / `new_collection_info`)
+fn first_property(root: &Value, name: &str) -> Option<String> {
+    let (_, sch) = schema_variants(root).into_iter().find(|(n, _)| n == name)?;
+    sch?["properties"].as_object()?.keys().next().cloned()
+}
+
+// ---------------------------------------------------------------------------------------------------- the system under test
 
 #[derive(Clone, Debug, Default)]
 struct Obs {
@@ -34,18 +335,19 @@ struct Obs {
     pend: Option<u64>,
 }
 impl Obs {
+    /// primary ` ## ` outside-projection
     fn render(&self) -> String {
         let tr = if !self.exists { "none".to_string() } else { fmt_opt(&self.tr) };
         format!(
-            "now={} off={} tr={} start={} end={} creator={} owner={} pend={}",
+            "now={} off={} tr={} start={} creator={} owner={} pend={} ## end={}",
             self.now,
             self.off,
             tr,
             fmt_opt(&self.start),
-            fmt_opt(&self.end),
             fmt_opt(&self.creator),
             fmt_opt(&self.owner),
-            fmt_opt(&self.pend)
+            fmt_opt(&self.pend),
+            fmt_opt(&self.end)
         )
     }
 }
@@ -63,14 +365,30 @@ struct S {
     minter: Option<String>,
     coll: Option<String>,
     coll_idx: u64,
-    expect_minter: u64,
-    // ---- monitor bookkeeping (implementation observations only)
-    admin0: u64,
+    coll_root: Value,
+    minter_root: Value,
+    sudo_root: Value,
+    factory_root: Value,
+    factory_sudo_root: Value,
+    /// verdict of the last op on the real contracts (for the generator's class keys)
+    last_ok: bool,
+    // ---- GHOST bookkeeping: what the harness itself sent / installed (never a query answer)
+    /// block time the harness set
+    g_now: u64,
+    /// offset governance last set explicitly
+    g_off: u64,
+    /// mint start requested at creation / by the last accepted UpdateStartTime (None: no minter, or base-minter)
+    g_start: Option<u64>,
+    /// minter admin installed at creation
+    g_admin: u64,
+    /// collection creator: installed at creation, then every accepted UpdateCollectionInfo{creator}
+    g_creator: u64,
+    /// the last trading time written by a successful create / minter update
     last_valid: Option<Option<u64>>,
     finding: Option<(String, String)>,
     /// the harness impersonated the minter CONTRACT's address in a message to the collection (impossible on chain; used in
-    /// the labelled `spoof` cases only, to validate the model's collection-side branches). The two monitors that speak
-    /// about "the minter" are meaningless from then on and are switched off for the rest of that case.
+    /// the labelled `spoof` cases only, to validate the model's collection-side branches). The monitors that speak about
+    /// "the minter" are meaningless from then on and are switched off for the rest of that case.
     spoofed: bool,
 }
 
@@ -85,8 +403,17 @@ impl S {
             minter: None,
             coll: None,
             coll_idx: 0,
-            expect_minter: 0,
-            admin0: 0,
+            coll_root: Value::Null,
+            minter_root: Value::Null,
+            sudo_root: Value::Null,
+            factory_root: Value::Null,
+            factory_sudo_root: Value::Null,
+            last_ok: false,
+            g_now: 0,
+            g_off: 0,
+            g_start: None,
+            g_admin: 0,
+            g_creator: 0,
             last_valid: None,
             finding: None,
             spoofed: false,
@@ -94,6 +421,34 @@ impl S {
     }
     fn world(&mut self) -> &mut World {
         self.w.as_mut().expect("case begun")
+    }
+    /// id -> address: the three symbolic ids name the contracts of this case (a plain account while they do not exist yet)
+    fn resolve(&self, id: u64) -> String {
+        match id {
+            MINTER_ID => self.minter.clone().unwrap_or_else(|| addr(id)),
+            COLL_ID => self.coll.clone().unwrap_or_else(|| addr(id)),
+            FACTORY_ID => self.factory.clone(),
+            _ => addr(id),
+        }
+    }
+    /// address -> id, independent of how cw-multi-test numbers contracts
+    fn ident(&self, s: &str) -> u64 {
+        if Some(s) == self.minter.as_deref() {
+            return MINTER_ID;
+        }
+        if Some(s) == self.coll.as_deref() {
+            return COLL_ID;
+        }
+        if s == self.factory {
+            return FACTORY_ID;
+        }
+        if let Some(k) = s.strip_prefix("acct").and_then(|k| k.parse::<u64>().ok()) {
+            return k;
+        }
+        if let Some(k) = s.strip_prefix("contract").and_then(|k| k.parse::<u64>().ok()) {
+            return 1000 + k;
+        }
+        lp_harness::world::addr_id(s)
     }
     fn observe(&self) -> Obs {
         let w = self.w.as_ref().expect("case begun");
@@ -105,18 +460,19 @@ impl S {
             o.exists = true;
             if let Ok(ci) = w.query(c, &json!({"collection_info": {}})) {
                 o.tr = jts(&ci["start_trading_time"]);
-                o.creator = ci["creator"].as_str().map(addr_id);
+                o.creator = ci["creator"].as_str().map(|s| self.ident(s));
             }
-            // cw_ownable's raw record (sg721-updatable has no `Ownership {}` query): {"owner":…, "pending_owner":…, …}
-            if let Some((_, v)) = w.dump(c).into_iter().find(|(k, _)| k.as_slice() == b"ownership") {
-                if let Ok(ow) = serde_json::from_slice::<Value>(&v) {
-                    o.owner = ow["owner"].as_str().map(addr_id);
-                    o.pend = ow["pending_owner"].as_str().map(addr_id);
+            // cw_ownable's record, read through the crate's own typed accessor (sg721-updatable has no `Ownership {}` query)
+            match cw_ownable::get_ownership(&*w.app.contract_storage(&Addr::unchecked(c.as_str()))) {
+                Ok(ow) => {
+                    o.owner = ow.owner.as_ref().map(|a| self.ident(a.as_str()));
+                    o.pend = ow.pending_owner.as_ref().map(|a| self.ident(a.as_str()));
                 }
+                Err(_) => o.owner = Some(u64::MAX - 1),
             }
             // cross-check with the public `Minter {}` query
             if let Ok(mq) = w.query(c, &json!({"minter": {}})) {
-                if mq["minter"].as_str().map(addr_id) != o.owner {
+                if mq["minter"].as_str().map(|s| self.ident(s)) != o.owner {
                     o.owner = Some(u64::MAX);
                 }
             }
@@ -134,10 +490,36 @@ impl S {
             self.finding = Some((key, what));
         }
     }
-    fn sudo_msg(&self, v: Option<u64>) -> Value {
-        let ext = if self.kind.factory() == FactoryKind::Base { Value::Null } else { json!({}) };
-        json!({"update_params": {"max_trading_offset_secs": v, "extension": ext}})
+    /// governance UpdateParams: `v` = the offset (None = omitted: a PARTIAL update), plus optionally another field so that the
+    /// message is the kind of unrelated partial update governance really sends
+    fn params_msg(&self, v: Option<u64>, bps: Option<u64>, extra: u64) -> Value {
+        let fk = self.kind.factory();
+        let ext = if fk == FactoryKind::Base { Value::Null } else { json!({}) };
+        let mut m = json!({"max_trading_offset_secs": v, "extension": ext});
+        if fk != FactoryKind::TokenMerge {
+            if let Some(b) = bps {
+                m["mint_fee_bps"] = json!(b);
+            }
+        }
+        match extra {
+            1 => m["add_sg721_code_ids"] = json!([4242]),
+            2 => m["frozen"] = json!(false),
+            3 => m["creation_fee"] = jcoin(self.params.as_ref().unwrap().creation_fee),
+            _ => {}
+        }
+        m
     }
+    /// rewrite the cw2 version record of a contract (as if it had been instantiated by an older release), keeping its name
+    fn set_cw2(&mut self, contract: &str, version: &str) {
+        let a = Addr::unchecked(contract);
+        let w = self.world();
+        let name = cw2::get_contract_version(&*w.app.contract_storage(&a)).map(|v| v.contract).unwrap_or_default();
+        let _ = cw2::set_contract_version(&mut *w.app.contract_storage_mut(&a), name, version);
+    }
+}
+
+fn strip_acc(line: &str) -> String {
+    line.split_whitespace().filter(|w| !w.starts_with("acc=")).collect::<Vec<_>>().join(" ")
 }
 
 impl Sut for S {
@@ -157,23 +539,31 @@ impl Sut for S {
             let (_mb, cb) = w.create_minter(&fb, MinterKind::Base, &ab).expect("source collection");
             tm_source = Some(cb);
         }
-        let factory = w.new_factory(kind.factory(), &p).expect("factory");
+        // the factory gets a wasm admin (governance) so that it can be migrated
+        let code = w.factory_code(kind.factory());
+        let factory = w.instantiate(code, &addr(GOV), &json!({"params": p.to_json(kind.factory())}), &[], Some(&addr(GOV))).expect("factory");
         *self = S::new();
-        self.expect_minter = addr_id(&factory) + 1;
         self.w = Some(w);
         self.kind = kind;
         self.factory = factory;
         self.params = Some(p);
         self.tm_source = tm_source;
-        (format!("{header} minter={}", self.expect_minter), "case".into())
+        self.minter_root = minter_schema(kind);
+        self.sudo_root = minter_sudo_schema();
+        self.factory_root = factory_schema(kind.factory());
+        self.factory_sudo_root = factory_sudo_schema(kind.factory());
+        self.g_now = now;
+        self.g_off = offset;
+        (header.to_string(), "case".into())
     }
 
     fn exec(&mut self, line: &str) -> (String, String) {
+        let line = strip_acc(line);
+        let line = line.as_str();
         let op = line.split_whitespace().next().unwrap_or("").to_string();
-        let before = self.observe();
         let name = self.kind.name();
         let is_base = self.kind == MinterKind::Base;
-        let sender = kv_u64(line, "sender").map(addr);
+        let sender = kv_u64(line, "sender").map(|i| self.resolve(i));
         let funds: Vec<(u64, u128)> = match kv_u128(line, "funds") {
             Some(f) if f > 0 => {
                 let s = sender.clone().unwrap();
@@ -182,17 +572,38 @@ impl Sut for S {
             }
             _ => vec![],
         };
-        let need = |x: &Option<String>| x.clone();
+        let k = kv_u64(line, "k").unwrap_or(1);
+        let pop = Pop::parse(kv(line, "field").unwrap_or("-"));
         let ok: bool = match op.as_str() {
             "time" => {
                 let t = kv_u64(line, "t").unwrap();
                 self.world().set_time(t);
+                self.g_now = t;
                 true
             }
             "sudo_offset" => {
-                let m = self.sudo_msg(kv_opt_u64(line, "v").unwrap());
+                let v = kv_opt_u64(line, "v").unwrap();
+                let bps = kv_opt_u64(line, "bps").unwrap_or(None);
+                let m = json!({"update_params": self.params_msg(v, bps, kv_u64(line, "extra").unwrap_or(0))});
                 let f = self.factory.clone();
-                self.world().sudo(&f, &m).is_ok()
+                let r = self.world().sudo(&f, &m).is_ok();
+                if let (true, Some(v)) = (r, v) {
+                    self.g_off = v;
+                }
+                r
+            }
+            "mig_factory" => {
+                let v = kv_opt_u64(line, "v").unwrap_or(None);
+                let with_msg = kv_bool(line, "msg").unwrap_or(false);
+                let m = if with_msg { self.params_msg(v, kv_opt_u64(line, "bps").unwrap_or(None), kv_u64(line, "extra").unwrap_or(0)) } else { Value::Null };
+                let f = self.factory.clone();
+                let fk = self.kind.factory();
+                let code = self.world().factory_code(fk);
+                let r = self.world().migrate(&addr(GOV), &f, code, &m).is_ok();
+                if let (true, true, Some(v)) = (r, with_msg, v) {
+                    self.g_off = v;
+                }
+                r
             }
             "create" => {
                 if self.minter.is_some() {
@@ -217,21 +628,20 @@ impl Sut for S {
                     w.fund(&addr(creator), 0, p.creation_fee.1);
                     match w.create_minter(&factory, kind, &a) {
                         Ok((m, c)) => {
-                            let got = addr_id(&m);
                             self.coll_idx = ci;
+                            self.coll_root = coll_schema(coll_kind(ci));
                             self.minter = Some(m);
                             self.coll = Some(c);
-                            self.admin0 = creator;
-                            if got != self.expect_minter {
-                                return (line.to_string(), format!("minter-address-mispredicted {got}"));
-                            }
+                            self.g_admin = creator;
+                            self.g_creator = creator;
+                            self.g_start = if is_base { None } else { Some(a.start_time) };
                             true
                         }
                         Err(_) => false,
                     }
                 }
             }
-            "upd_trading" | "upd_start" | "upd_end" => match need(&self.minter) {
+            "upd_trading" | "upd_start" | "upd_end" => match self.minter.clone() {
                 None => false,
                 Some(m) => {
                     let msg = match op.as_str() {
@@ -240,62 +650,160 @@ impl Sut for S {
                         _ => json!({"update_end_time": jtime(kv_u64(line, "t").unwrap())}),
                     };
                     let s = sender.clone().unwrap();
-                    self.world().exec(&s, &m, &msg, &funds).is_ok()
+                    let r = self.world().exec(&s, &m, &msg, &funds).is_ok();
+                    if r && op == "upd_start" && !is_base {
+                        self.g_start = kv_u64(line, "t");
+                    }
+                    r
                 }
             },
-            "coll_trading" | "coll_creator" | "coll_freeze" | "coll_own" => match need(&self.coll) {
+            "coll_trading" | "coll_creator" | "coll_freeze" | "coll_own" => match self.coll.clone() {
                 None => false,
                 Some(c) => {
                     if sender == self.minter {
                         self.spoofed = true;
                     }
-                    let ck = coll_kind(self.coll_idx);
+                    let root = &self.coll_root;
                     let msg = match op.as_str() {
                         "coll_trading" => json!({"update_start_trading_time": jopt_time(kv_opt_u64(line, "t").unwrap())}),
                         "coll_creator" => {
-                            let info = json!({"creator": addr(kv_u64(line, "new").unwrap())});
-                            if ck == CollKind::Nt {
-                                json!({"update_collection_info": {"new_collection_info": info}})
-                            } else {
-                                json!({"update_collection_info": {"collection_info": info}})
-                            }
+                            let info = json!({"creator": self.resolve(kv_u64(line, "new").unwrap())});
+                            let field = first_property(root, "update_collection_info").unwrap_or_else(|| "collection_info".into());
+                            let mut m = Map::new();
+                            m.insert(field, info);
+                            json!({"update_collection_info": Value::Object(m)})
                         }
-                        "coll_freeze" => {
-                            if matches!(ck, CollKind::Base | CollKind::MetadataOnchain) {
-                                json!("freeze_collection_info")
-                            } else {
-                                json!({"freeze_collection_info": {}})
-                            }
-                        }
+                        "coll_freeze" => shaped(root, "freeze_collection_info", json!({})),
                         _ => match kv_u64(line, "act").unwrap() {
-                            0 => json!({"update_ownership": {"transfer_ownership": {"new_owner": addr(kv_u64(line, "new").unwrap()), "expiry": null}}}),
+                            0 => json!({"update_ownership": {"transfer_ownership": {"new_owner": self.resolve(kv_u64(line, "new").unwrap()), "expiry": null}}}),
                             1 => json!({"update_ownership": "accept_ownership"}),
                             _ => json!({"update_ownership": "renounce_ownership"}),
                         },
                     };
                     let s = sender.clone().unwrap();
-                    self.world().exec(&s, &c, &msg, &[]).is_ok()
+                    let r = self.world().exec(&s, &c, &msg, &[]).is_ok();
+                    if r && op == "coll_creator" {
+                        self.g_creator = kv_u64(line, "new").unwrap();
+                    }
+                    r
+                }
+            },
+            // ---- inert for the model: the rest of the message surface and the migrations
+            "coll_raw" => match self.coll.clone() {
+                None => false,
+                Some(c) => {
+                    let what = kv(line, "what").unwrap_or("");
+                    if KNOWN_COLL.contains(&what) && what != "update_collection_info" {
+                        return (line.to_string(), "bad-op".into());
+                    }
+                    match raw_variant_msg(&self.coll_root, what, k, &pop) {
+                        None => false,
+                        Some(msg) => {
+                            let s = sender.clone().unwrap();
+                            self.world().exec(&s, &c, &msg, &funds).is_ok()
+                        }
+                    }
+                }
+            },
+            "minter_raw" => match self.minter.clone() {
+                None => false,
+                Some(m) => {
+                    let what = kv(line, "what").unwrap_or("");
+                    if KNOWN_MINTER.contains(&what) {
+                        return (line.to_string(), "bad-op".into());
+                    }
+                    match raw_variant_msg(&self.minter_root, what, k, &pop) {
+                        None => false,
+                        Some(msg) => {
+                            let s = sender.clone().unwrap();
+                            self.world().exec(&s, &m, &msg, &funds).is_ok()
+                        }
+                    }
+                }
+            },
+            "factory_raw" => {
+                // factory messages other than CreateMinter / sudo UpdateParams (none exist today)
+                let what = kv(line, "what").unwrap_or("");
+                let f = self.factory.clone();
+                if kv(line, "mode") == Some("sudo") {
+                    if what == "update_params" {
+                        return (line.to_string(), "bad-op".into());
+                    }
+                    match raw_variant_msg(&self.factory_sudo_root, what, k, &pop) {
+                        None => false,
+                        Some(msg) => self.world().sudo(&f, &msg).is_ok(),
+                    }
+                } else {
+                    if what == "create_minter" {
+                        return (line.to_string(), "bad-op".into());
+                    }
+                    match raw_variant_msg(&self.factory_root, what, k, &pop) {
+                        None => false,
+                        Some(msg) => {
+                            let s = sender.clone().unwrap_or_else(|| addr(STRANGER));
+                            self.world().exec(&s, &f, &msg, &funds).is_ok()
+                        }
+                    }
+                }
+            }
+            "minter_sudo" => match self.minter.clone() {
+                None => false,
+                Some(m) => match raw_variant_msg(&self.sudo_root, kv(line, "what").unwrap_or(""), k, &pop) {
+                    None => false,
+                    Some(msg) => self.world().sudo(&m, &msg).is_ok(),
+                },
+            },
+            "mig_minter" => match self.minter.clone() {
+                None => false,
+                Some(m) => {
+                    if kv_u64(line, "from").unwrap_or(0) == 1 {
+                        self.set_cw2(&m, "3.0.0");
+                    }
+                    let ki = self.kind.idx();
+                    let code = self.world().codes.minters[ki];
+                    let admin = addr(self.g_admin);
+                    self.world().migrate(&admin, &m, code, &json!({})).is_ok()
+                }
+            },
+            "mig_coll" => match self.coll.clone() {
+                None => false,
+                Some(c) => {
+                    match kv_u64(line, "from").unwrap_or(0) {
+                        1 => self.set_cw2(&c, "3.0.0"),
+                        2 => self.set_cw2(&c, "2.0.0"),
+                        _ => {}
+                    }
+                    let ck = coll_kind(self.coll_idx);
+                    let code = self.world().coll_code(ck);
+                    let admin = addr(self.g_admin);
+                    self.world().migrate(&admin, &c, code, &json!({})).is_ok()
                 }
             },
             _ => return (line.to_string(), "bad-op".into()),
         };
+        self.last_ok = ok;
         let after = self.observe();
 
-        // ------------------------------------------------------------------ monitors: the property on the real trace
-        let bound_of = |start: Option<u64>, off: u64| start.map(|s| s as u128 + off as u128 * NS as u128);
+        // ------------------------------------------------------------------ monitors: the property on the real trace,
+        // evaluated on the harness's own record (ghost) of offset / mint start / clock / admin
+        let goff_ns = self.g_off as u128 * NS as u128;
         if ok && op == "create" {
             let req = kv_opt_u64(line, "trading").unwrap();
+            let start = kv_u64(line, "start").unwrap();
             if !is_base {
-                let b = bound_of(after.start, after.off);
-                match (after.tr, b) {
-                    (Some(t), Some(b)) if (t as u128) <= b => {}
-                    _ => self.flag(format!("{name}/create/trading-after-bound"), format!("created with trading time {:?} later than mint start {:?} + offset {}s (or none stored) on `{line}`", after.tr, after.start, after.off)),
+                let b = start as u128 + goff_ns;
+                match after.tr {
+                    Some(t) if (t as u128) <= b => {}
+                    _ => self.flag(
+                        format!("{name}/create/trading-time-beyond-governance-offset"),
+                        format!("created with trading time {:?}, later than the requested mint start {start} + the offset governance last set ({}s) (or none stored), on `{line}`", after.tr, self.g_off),
+                    ),
                 }
-                if req.is_none() && after.tr.map(|t| t as u128) != b {
-                    self.flag(format!("{name}/create/default"), format!("default trading time {:?} is not mint start {:?} + offset {}s on `{line}`", after.tr, after.start, after.off));
+                if req.is_none() && after.tr.map(|t| t as u128) != Some(b) {
+                    self.flag(format!("{name}/create/default-not-start-plus-governance-offset"), format!("default trading time {:?} is not mint start {start} + governance offset {}s on `{line}`", after.tr, self.g_off));
                 }
-            } else if req.is_none() && after.tr.map(|t| t as u128) != Some(after.now as u128 + after.off as u128 * NS as u128) {
-                self.flag(format!("{name}/create/default"), format!("default trading time {:?} is not creation time {} + offset {}s on `{line}`", after.tr, after.now, after.off));
+            } else if req.is_none() && after.tr.map(|t| t as u128) != Some(self.g_now as u128 + goff_ns) {
+                self.flag(format!("{name}/create/default-not-now-plus-governance-offset"), format!("default trading time {:?} is not creation time {} + governance offset {}s on `{line}`", after.tr, self.g_now, self.g_off));
             }
             if req.is_some() && after.tr != req {
                 self.flag(format!("{name}/create/stored-differs"), format!("requested {:?}, collection shows {:?} on `{line}`", req, after.tr));
@@ -305,18 +813,21 @@ impl Sut for S {
         if ok && op == "upd_trading" {
             let req = kv_opt_u64(line, "t").unwrap();
             let snd = kv_u64(line, "sender").unwrap();
-            let admin = if is_base { before.creator.unwrap_or(u64::MAX) } else { self.admin0 };
+            let admin = if is_base { self.g_creator } else { self.g_admin };
             if snd != admin {
                 self.flag(format!("{name}/update/non-admin-accepted"), format!("sender {snd} is not the minter admin {admin} but `{line}` succeeded"));
             }
             if let Some(t) = req {
-                if t < before.now {
-                    self.flag(format!("{name}/update/past-accepted"), format!("trading time {t} earlier than the block time {} accepted on `{line}`", before.now));
+                if t < self.g_now {
+                    self.flag(format!("{name}/update/past-accepted"), format!("trading time {t} earlier than the block time {} accepted on `{line}`", self.g_now));
                 }
                 if !is_base {
-                    match bound_of(before.start, before.off) {
-                        Some(b) if (t as u128) <= b => {}
-                        _ => self.flag(format!("{name}/update/after-bound"), format!("trading time {t} later than current mint start {:?} + current offset {}s accepted on `{line}`", before.start, before.off)),
+                    match self.g_start {
+                        Some(s) if (t as u128) <= s as u128 + goff_ns => {}
+                        _ => self.flag(
+                            format!("{name}/update/trading-time-beyond-governance-offset"),
+                            format!("trading time {t} later than the current mint start {:?} + the offset governance last set ({}s; the factory answers {}s) accepted on `{line}`", self.g_start, self.g_off, after.off),
+                        ),
                     }
                 }
             }
@@ -325,19 +836,34 @@ impl Sut for S {
             }
             self.last_valid = Some(req);
         }
+        let cname = COLL_NAMES[self.coll_idx as usize];
         if ok && op == "coll_trading" && !self.spoofed {
             let snd = kv_u64(line, "sender").unwrap();
-            if Some(addr(snd)) != self.minter {
-                self.flag(format!("{}/direct-update/non-minter-accepted", COLL_NAMES[self.coll_idx as usize]), format!("the collection accepted UpdateStartTradingTime from {snd}, not its minter, on `{line}`"));
+            if snd != MINTER_ID {
+                self.flag(format!("{cname}/direct-update/non-minter-accepted"), format!("the collection accepted UpdateStartTradingTime from {snd}, not its minter, on `{line}`"));
             }
         }
-        if after.exists && !self.spoofed && self.last_valid != Some(after.tr) {
-            self.flag(
-                format!("{}/visible/not-validated", COLL_NAMES[self.coll_idx as usize]),
-                format!("CollectionInfo shows trading time {:?} but the last minter-validated write was {:?} (after `{line}`)", after.tr, self.last_valid),
-            );
+        if after.exists && !self.spoofed {
+            if self.last_valid != Some(after.tr) {
+                self.flag(
+                    format!("{cname}/visible/not-validated"),
+                    format!("CollectionInfo shows trading time {:?} but the last minter-validated write was {:?} (after `{line}`)", after.tr, self.last_valid),
+                );
+            }
+            if after.owner != Some(MINTER_ID) || after.pend.is_some() {
+                self.flag(
+                    format!("{cname}/ownership/minter-no-longer-sole-owner"),
+                    format!("the collection's owner record is owner={:?} pending={:?} (the minter is {MINTER_ID}) after `{line}` — nobody impersonated the minter", after.owner, after.pend),
+                );
+            }
         }
-        (line.to_string(), format!("{} {}", if ok { "ok" } else { "err" }, after.render()))
+        let w = if ok { "ok" } else { "err" };
+        match op.as_str() {
+            "create" => (format!("{line} acc={}", ok as u8), format!("{w} {} dec={w}", after.render())),
+            "upd_start" | "upd_end" | "coll_creator" | "coll_freeze" => (format!("{line} acc={}", ok as u8), format!("env {} dec={w}", after.render())),
+            "coll_raw" | "minter_raw" | "minter_sudo" | "factory_raw" | "mig_minter" | "mig_coll" => (line.to_string(), format!("any {}", after.render())),
+            _ => (line.to_string(), format!("{w} {}", after.render())),
+        }
     }
 
     fn monitor(&mut self) -> Option<(String, String)> {
@@ -351,11 +877,11 @@ fn ob(out: &str, key: &str) -> Option<u64> {
     kv(out, key).and_then(|v| v.parse().ok())
 }
 
+/// what the implementation last answered (used only to AIM the generator, e.g. at the bound the contracts themselves believe in)
 #[derive(Clone, Debug)]
 struct Shadow {
     now: u64,
     off: u64,
-    exists: bool,
     tr: Option<u64>,
     start: Option<u64>,
     end: Option<u64>,
@@ -365,7 +891,6 @@ fn shadow(out: &str, prev: &Shadow) -> Shadow {
     Shadow {
         now: ob(out, "now").unwrap_or(prev.now),
         off: ob(out, "off").unwrap_or(prev.off),
-        exists: kv(out, "tr").map(|v| v != "none").unwrap_or(prev.exists),
         tr: ob(out, "tr"),
         start: ob(out, "start"),
         end: ob(out, "end"),
@@ -410,16 +935,28 @@ struct Gen<'a> {
 }
 
 impl Gen<'_> {
+    /// the bound according to the harness's own record: mint start + the offset governance last set explicitly
     fn bound(&self) -> Option<u64> {
+        if self.kind == MinterKind::Base {
+            None
+        } else {
+            self.sut.g_start.map(|s| s + self.sut.g_off * NS)
+        }
+    }
+    /// the bound the contracts answer (differs from `bound()` only when the code under test lost track of governance)
+    fn impl_bound(&self) -> Option<u64> {
         if self.kind == MinterKind::Base {
             None
         } else {
             self.sh.start.map(|s| s + self.sh.off * NS)
         }
     }
+    fn floor(&mut self, tag: &str) {
+        self.ses.mark(format!("floor:{}:{tag}", self.kind.name()));
+    }
     fn step(&mut self, line: String, class: String) -> bool {
         let out = self.ses.step(self.sut, &line);
-        let ok = out.starts_with("ok");
+        let ok = self.sut.last_ok && out != "bad-op";
         self.sh = shadow(&out, &self.sh);
         self.ses.mark(format!("{}:{}:{}:{}", fam(self.kind), COLL_NAMES[self.ci as usize], class, if ok { "ok" } else { "err" }));
         self.ses.mark(format!("{}:{}", self.kind.name(), class.split(':').next().unwrap_or("")));
@@ -427,40 +964,84 @@ impl Gen<'_> {
     }
     fn admin(&self) -> u64 {
         if self.kind == MinterKind::Base {
-            self.sh.creator
+            self.sut.g_creator
         } else {
             CREATOR
         }
     }
+    fn now(&self) -> u64 {
+        self.sut.g_now
+    }
     fn create(&mut self, start: u64, end: Option<u64>, trading: Option<u64>, tag: &str) -> bool {
-        let b = if self.kind == MinterKind::Base { None } else { Some(start + self.sh.off * NS) };
-        let class = format!("create:{tag}:{}", rel(trading, self.sh.now, b));
-        self.step(format!("create coll={} creator={CREATOR} start={start} end={} trading={}", self.ci, fmt_opt(&end), fmt_opt(&trading)), class)
+        let b = if self.kind == MinterKind::Base { None } else { Some(start + self.sut.g_off * NS) };
+        let class = format!("create:{tag}:{}", rel(trading, self.now(), b));
+        let ok = self.step(format!("create coll={} creator={CREATOR} start={start} end={} trading={}", self.ci, fmt_opt(&end), fmt_opt(&trading)), class);
+        if ok {
+            self.floor("create-ok");
+            if trading.is_none() {
+                self.floor("create-default-ok");
+            }
+        }
+        ok
     }
     fn upd_trading(&mut self, sender: u64, t: Option<u64>, funds: u64) -> bool {
         let who = if sender == self.admin() { "admin" } else { "other" };
-        let class = format!("upd_trading:{who}:f{}:{}", funds.min(1), rel(t, self.sh.now, self.bound()));
-        self.step(format!("upd_trading sender={sender} t={} funds={funds}", fmt_opt(&t)), class)
+        let class = format!("upd_trading:{who}:f{}:{}", funds.min(1), rel(t, self.now(), self.bound()));
+        let ok = self.step(format!("upd_trading sender={sender} t={} funds={funds}", fmt_opt(&t)), class);
+        if ok && t.is_none() && who == "admin" {
+            self.ses.count("upd_trading:none:ok");
+            self.floor("upd-none-ok");
+        }
+        ok
     }
-    /// the six requested times of the property's quantifier (+ two extras)
+    /// the six requested times of the property's quantifier (+ extras): none, now-1, now, bound-1, bound, bound+1
     fn probe_values(&self) -> Vec<Option<u64>> {
-        let now = self.sh.now;
+        let now = self.now();
         let mut v = vec![None, Some(now.saturating_sub(1)), Some(now)];
         match self.bound() {
-            Some(b) => v.extend([Some(b.saturating_sub(1)), Some(b), Some(b + 1)]),
+            Some(b) => {
+                v.extend([Some(b.saturating_sub(1)), Some(b), Some(b + 1)]);
+                if let Some(ib) = self.impl_bound() {
+                    if ib != b {
+                        v.extend([Some(ib), Some(ib + 1)]);
+                    }
+                }
+            }
             None => v.extend([Some(now + 1), Some(now + 400 * DAY)]),
         }
         v
     }
-    fn six(&mut self) {
+    /// probes the six values as the admin; returns true when the exact boundary behaviour was seen in THIS state:
+    /// bound accepted and bound+1 ns refused (base: far future accepted), now accepted and now-1 ns refused
+    fn six(&mut self, tag: &str) {
         let a = self.admin();
+        let now = self.now();
+        let b = self.bound();
+        let mut res: Vec<(Option<u64>, bool)> = vec![];
         for t in self.probe_values() {
-            self.upd_trading(a, t, 0);
+            let ok = self.upd_trading(a, t, 0);
+            res.push((t, ok));
+        }
+        let got = |t: u64| res.iter().find(|(x, _)| *x == Some(t)).map(|(_, ok)| *ok);
+        match b {
+            Some(b) => {
+                if got(b) == Some(true) && got(b + 1) == Some(false) {
+                    self.floor("upd-bound-pair");
+                    self.floor(&format!("{tag}-bound-pair"));
+                }
+            }
+            None => {
+                if got(now + 400 * DAY) == Some(true) {
+                    self.floor("upd-far-future-ok");
+                    self.floor(&format!("{tag}-far-future-ok"));
+                }
+            }
+        }
+        if now > 0 && got(now) == Some(true) && got(now - 1) == Some(false) {
+            self.floor("upd-now-pair");
         }
     }
     fn some_sender(&mut self) -> u64 {
-        let fac = addr_id(&self.sut.factory);
-        let col = self.sut.coll.as_deref().map(addr_id).unwrap_or(STRANGER);
         let a = self.admin();
         match self.rng.below(10) {
             0..=5 => a,
@@ -472,19 +1053,17 @@ impl Gen<'_> {
                     CREATOR
                 }
             }
-            8 => fac,
-            _ => col,
+            8 => FACTORY_ID,
+            _ => COLL_ID,
         }
     }
     fn non_minter_sender(&mut self) -> u64 {
-        let fac = addr_id(&self.sut.factory);
-        let col = self.sut.coll.as_deref().map(addr_id).unwrap_or(STRANGER);
-        *self.rng.pick(&[self.admin(), CREATOR, CREATOR2, STRANGER, fac, col])
+        *self.rng.pick(&[self.admin(), CREATOR, CREATOR2, STRANGER, FACTORY_ID, COLL_ID])
     }
     fn random_time_target(&mut self) -> Option<u64> {
-        let now = self.sh.now;
+        let now = self.now();
         let mut c: Vec<u64> = vec![now, now + 1, now + self.rng.range(1, 3) * NS, now + self.rng.range(1, 30) * DAY / 10];
-        for x in [self.sh.start, self.bound(), self.sh.tr, self.sh.end].into_iter().flatten() {
+        for x in [self.sh.start, self.bound(), self.impl_bound(), self.sh.tr, self.sh.end].into_iter().flatten() {
             c.extend([x.saturating_sub(1), x, x + 1]);
         }
         let c: Vec<u64> = c.into_iter().filter(|t| *t >= now).collect();
@@ -495,7 +1074,7 @@ impl Gen<'_> {
         }
     }
     fn random_trading_request(&mut self) -> Option<u64> {
-        let now = self.sh.now;
+        let now = self.now();
         let mut v = self.probe_values();
         v.push(Some(now + 1));
         if let Some(b) = self.bound() {
@@ -510,10 +1089,10 @@ impl Gen<'_> {
         *self.rng.pick(&v)
     }
     fn random_offset(&mut self) -> Option<u64> {
-        let off = self.sh.off;
-        let mut v: Vec<Option<u64>> = vec![None, Some(0), Some(1), Some(off.saturating_sub(1)), Some(off + 1), Some(off * 2 + 60), Some(off / 2), Some(self.rng.below(1_000_000))];
+        let off = self.sut.g_off;
+        let mut v: Vec<Option<u64>> = vec![None, None, Some(0), Some(1), Some(100), Some(off.saturating_sub(1)), Some(off + 1), Some(off * 2 + 60), Some(off / 2), Some(self.rng.below(1_000_000))];
         // make the stored trading time sit exactly on / one second inside / outside the new bound
-        if let (Some(tr), Some(s)) = (self.sh.tr, self.sh.start) {
+        if let (Some(tr), Some(s)) = (self.sh.tr, self.sut.g_start) {
             if tr >= s {
                 let k = (tr - s) / NS;
                 v.extend([Some(k), Some(k + 1), Some(k.saturating_sub(1))]);
@@ -521,10 +1100,16 @@ impl Gen<'_> {
         }
         *self.rng.pick(&v)
     }
+    /// a governance UpdateParams line: offset `v` (None = omitted), sometimes with another field changed in the same message
+    fn sudo_line(&mut self, v: Option<u64>) -> String {
+        let bps = if self.rng.chance(1, 4) { Some(*self.rng.pick(&[0u64, 1, 500, 1000, 2500, 10_000])) } else { None };
+        let extra = if self.rng.chance(1, 3) { self.rng.range(1, 3) } else { 0 };
+        format!("sudo_offset v={} bps={} extra={extra}", fmt_opt(&v), fmt_opt(&bps))
+    }
     fn random_start(&mut self) -> u64 {
-        let now = self.sh.now;
+        let now = self.now();
         let mut v = vec![now.saturating_sub(1), now, now + 1, now + self.rng.range(1, 100) * NS, now + self.rng.range(1, 20) * DAY, GENESIS - 1, GENESIS, GENESIS + 1];
-        if let Some(s) = self.sh.start {
+        if let Some(s) = self.sut.g_start {
             v.extend([s.saturating_sub(1), s + 1, s + DAY]);
         }
         if let Some(e) = self.sh.end {
@@ -532,15 +1117,146 @@ impl Gen<'_> {
         }
         if let Some(tr) = self.sh.tr {
             // mint start such that the stored trading time is exactly at / one ns beyond the new bound
-            let d = self.sh.off * NS;
+            let d = self.sut.g_off * NS;
             if tr >= d {
                 v.extend([tr - d, (tr - d).saturating_sub(1), tr - d + 1]);
             }
         }
         *self.rng.pick(&v)
     }
+    /// variants of a schema without a named op
+    fn unknown_variants(root: &Value, known: &[&str]) -> Vec<String> {
+        schema_variants(root).into_iter().map(|(n, _)| n).filter(|n| !known.contains(&n.as_str())).collect()
+    }
+    /// one message of the collection's surface (incl. `update_collection_info` with other fields populated)
+    fn coll_raw(&mut self, what: &str, sender: u64, k: u64, field: &str) -> bool {
+        let who = if sender == self.sut.g_creator { "creator" } else { "other" };
+        let ok = self.step(format!("coll_raw what={what} sender={sender} k={k} field={field}"), format!("coll_raw:{what}:{who}:{}", if field == "-" { "plain" } else { "populated" }));
+        if ok {
+            self.floor("raw-coll-ok");
+        }
+        ok
+    }
+    fn minter_raw(&mut self, what: &str, sender: u64, k: u64, funds: u64, field: &str) -> bool {
+        let who = if sender == self.admin() { "admin" } else { "other" };
+        let ok = self.step(format!("minter_raw what={what} sender={sender} k={k} funds={funds} field={field}"), format!("minter_raw:{what}:{who}:f{}", funds.min(1)));
+        if ok {
+            self.floor("raw-minter-ok");
+        }
+        ok
+    }
+    fn migrations(&mut self) {
+        if self.step("mig_minter from=0".into(), "mig_minter:same".into()) {
+            self.floor("mig-minter-ok");
+        }
+        if self.step("mig_minter from=1".into(), "mig_minter:from-3.0.0".into()) {
+            self.floor("mig-minter-ok");
+        }
+        for from in [0u64, 1, 2] {
+            if self.step(format!("mig_coll from={from}"), format!("mig_coll:from{from}")) {
+                self.floor("mig-coll-ok");
+            }
+        }
+        if self.step("mig_factory v=- msg=0".into(), "mig_factory:null".into()) {
+            self.floor("mig-factory-ok");
+        }
+    }
+    /// the whole message surface found in the schemas, sent under the monitors
+    fn surface(&mut self) {
+        // base-minter: the whole payment is the network fee on the factory's minimum price (harness's own parameters)
+        let price: u64 = if self.kind == MinterKind::Base {
+            let p = self.sut.params.as_ref().unwrap();
+            (p.min_mint_price.1 * p.mint_fee_bps as u128 / 10_000) as u64
+        } else {
+            100_000_000
+        };
+        let admin = self.admin();
+        // ---- minter: every ExecuteMsg variant without a named op, and the sudo messages
+        let mut mv = Self::unknown_variants(&self.sut.minter_root, &KNOWN_MINTER);
+        // supply-destroying messages last, so that a token can be minted first
+        mv.sort_by_key(|v| v.starts_with("burn") || v.starts_with("purge"));
+        if !mv.is_empty() {
+            self.ses.mark(format!("surface:minter:{}:{}", self.kind.name(), mv.join("+")));
+        }
+        // let minting begin and mint one token if the crate has a plain `mint`, so that token messages can succeed
+        if let Some(s) = self.sut.g_start {
+            if s > self.now() {
+                self.step(format!("time t={s}"), "time:at-start".into());
+            }
+        }
+        if mv.iter().any(|v| v == "mint") && !self.minter_raw("mint", admin, 1, price, "*") {
+            self.minter_raw("mint", admin, 1, price, "-");
+        }
+        let defs = self.sut.minter_root["definitions"].clone();
+        for v in &mv {
+            let mut fields = vec![];
+            if let Some((_, Some(s))) = schema_variants(&self.sut.minter_root).into_iter().find(|(n, _)| n == v) {
+                optional_fields(&s, &defs, 0, &mut fields);
+            }
+            self.minter_raw(v, STRANGER, 1, 0, "-");
+            if !self.minter_raw(v, admin, 1, 0, "-") {
+                self.minter_raw(v, admin, 1, price, "-");
+            }
+            if !fields.is_empty() {
+                self.minter_raw(v, admin, self.now() + 5, 0, "*");
+            }
+        }
+        for (v, _) in schema_variants(&self.sut.sudo_root) {
+            self.step(format!("minter_sudo what={v} k=1"), format!("minter_sudo:{v}"));
+            self.step(format!("minter_sudo what={v} k=0"), format!("minter_sudo:{v}"));
+        }
+        let tok: u64 = self
+            .sut
+            .coll
+            .clone()
+            .and_then(|c| self.sut.w.as_ref().unwrap().query(&c, &json!({"all_tokens": {}})).ok())
+            .and_then(|v| v["tokens"].as_array().and_then(|a| a.first().and_then(|t| t.as_str().and_then(|s| s.parse().ok()))))
+            .unwrap_or(1);
+        // ---- collection: every variant without a named op (plain + all optional fields), from the creator/token owner and a stranger
+        let cv = Self::unknown_variants(&self.sut.coll_root, &KNOWN_COLL);
+        self.ses.mark(format!("surface:coll:{}:{}", COLL_NAMES[self.ci as usize], cv.join("+")));
+        let cdefs = self.sut.coll_root["definitions"].clone();
+        let creator = self.sut.g_creator;
+        for v in &cv {
+            let mut fields = vec![];
+            if let Some((_, Some(s))) = schema_variants(&self.sut.coll_root).into_iter().find(|(n, _)| n == v) {
+                optional_fields(&s, &cdefs, 0, &mut fields);
+            }
+            self.coll_raw(v, STRANGER, tok, "-");
+            if !fields.is_empty() {
+                self.coll_raw(v, creator, tok, "*");
+            }
+            self.coll_raw(v, creator, tok, "-");
+        }
+        // ---- UpdateCollectionInfo: every optional field on its own (a new `start_trading_time`-like field would be set here), then all
+        let mut fields = vec![];
+        if let Some((_, Some(s))) = schema_variants(&self.sut.coll_root).into_iter().find(|(n, _)| n == "update_collection_info") {
+            optional_fields(&s, &cdefs, 0, &mut fields);
+        }
+        let k = self.now() + 7;
+        self.coll_raw("update_collection_info", creator, k, "-");
+        for f in &fields {
+            self.coll_raw("update_collection_info", creator, k, f);
+            self.coll_raw("update_collection_info", STRANGER, k, f);
+        }
+        self.coll_raw("update_collection_info", creator, k, "*");
+        // ---- factory: execute variants other than create_minter
+        for v in Self::unknown_variants(&self.sut.factory_root, &["create_minter"]) {
+            self.ses.mark(format!("surface:factory:unknown-variant:{v}"));
+            for (snd, f) in [(STRANGER, "-"), (creator, "-"), (creator, "*")] {
+                self.step(format!("factory_raw what={v} mode=exec sender={snd} k={k} field={f}"), format!("factory_raw:{v}"));
+            }
+        }
+        for v in Self::unknown_variants(&self.sut.factory_sudo_root, &["update_params"]) {
+            self.ses.mark(format!("surface:factory:unknown-sudo-variant:{v}"));
+            for f in ["-", "*"] {
+                self.step(format!("factory_raw what={v} mode=sudo k={k} field={f}"), format!("factory_raw:sudo:{v}"));
+            }
+        }
+        self.migrations();
+    }
     fn random_op(&mut self) {
-        let r = self.rng.below(100);
+        let r = self.rng.below(108);
         match r {
             0..=14 => {
                 if let Some(t) = self.random_time_target() {
@@ -550,8 +1266,9 @@ impl Gen<'_> {
             }
             15..=24 => {
                 let v = self.random_offset();
-                let class = format!("sudo_offset:{}", match v { None => "none", Some(x) if x < self.sh.off => "down", Some(x) if x == self.sh.off => "same", _ => "up" });
-                self.step(format!("sudo_offset v={}", fmt_opt(&v)), class);
+                let class = format!("sudo_offset:{}", match v { None => "none", Some(x) if x < self.sut.g_off => "down", Some(x) if x == self.sut.g_off => "same", _ => "up" });
+                let l = self.sudo_line(v);
+                self.step(l, class);
             }
             25..=36 => {
                 let s = if self.rng.chance(4, 5) { CREATOR } else { self.some_sender() };
@@ -560,14 +1277,14 @@ impl Gen<'_> {
                 let class = format!(
                     "upd_start:{}:f{f}:{}:{}",
                     if s == CREATOR { "admin" } else { "other" },
-                    if self.sh.start.map(|x| self.sh.now >= x).unwrap_or(false) { "started" } else { "before" },
-                    if t < self.sh.now { "past" } else if Some(t) < self.sh.start { "earlier" } else { "later" }
+                    if self.sh.start.map(|x| self.now() >= x).unwrap_or(false) { "started" } else { "before" },
+                    if t < self.now() { "past" } else if Some(t) < self.sh.start { "earlier" } else { "later" }
                 );
                 self.step(format!("upd_start sender={s} t={t} funds={f}"), class);
             }
             37..=41 => {
                 let s = if self.rng.chance(4, 5) { CREATOR } else { self.some_sender() };
-                let now = self.sh.now;
+                let now = self.now();
                 let mut v = vec![now.saturating_sub(1), now, now + self.rng.range(1, 40) * DAY];
                 if let Some(st) = self.sh.start {
                     v.extend([st.saturating_sub(1), st, st + 1, st + self.rng.range(1, 40) * DAY]);
@@ -583,7 +1300,12 @@ impl Gen<'_> {
                 let s = self.some_sender();
                 let t = self.random_trading_request();
                 let f = if self.rng.chance(1, 15) { self.rng.range(1, 3) } else { 0 };
+                // same-block repeat of the identical request now and then
+                let twice = self.rng.chance(1, 10);
                 self.upd_trading(s, t, f);
+                if twice {
+                    self.upd_trading(s, t, f);
+                }
             }
             72..=83 => {
                 let s = self.non_minter_sender();
@@ -592,27 +1314,64 @@ impl Gen<'_> {
                 self.step(format!("coll_trading sender={s} t={}", fmt_opt(&t)), class);
             }
             84..=89 => {
-                let s = if self.rng.chance(2, 3) { self.sh.creator } else { self.non_minter_sender() };
+                let s = if self.rng.chance(2, 3) { self.sut.g_creator } else { self.non_minter_sender() };
                 let n = *self.rng.pick(&[CREATOR, CREATOR2, STRANGER]);
-                let class = format!("coll_creator:{}", if s == self.sh.creator { "creator" } else { "other" });
+                let class = format!("coll_creator:{}", if s == self.sut.g_creator { "creator" } else { "other" });
                 self.step(format!("coll_creator sender={s} new={n}"), class);
             }
             90..=92 => {
-                let s = if self.rng.chance(1, 2) { self.sh.creator } else { self.non_minter_sender() };
-                let class = format!("coll_freeze:{}", if s == self.sh.creator { "creator" } else { "other" });
+                let s = if self.rng.chance(1, 2) { self.sut.g_creator } else { self.non_minter_sender() };
+                let class = format!("coll_freeze:{}", if s == self.sut.g_creator { "creator" } else { "other" });
                 self.step(format!("coll_freeze sender={s}"), class);
             }
-            _ => {
+            93..=99 => {
                 let s = self.non_minter_sender();
                 let act = self.rng.below(3);
                 let n = *self.rng.pick(&[STRANGER, CREATOR]);
                 self.step(format!("coll_own sender={s} act={act} new={n}"), format!("coll_own:{act}"));
             }
+            100..=102 => {
+                // governance through the factory's migrate entry point
+                let v = self.random_offset();
+                let l = if self.rng.chance(1, 4) { "mig_factory v=- msg=0".to_string() } else { format!("mig_factory v={} msg=1 bps=- extra={}", fmt_opt(&v), self.rng.below(3)) };
+                if self.step(l, format!("mig_factory:{}", if v.is_none() { "partial" } else { "explicit" })) {
+                    self.floor("mig-factory-ok");
+                }
+            }
+            103 => {
+                let from = self.rng.below(2);
+                self.step(format!("mig_minter from={from}"), "mig_minter:rnd".into());
+            }
+            104 => {
+                let from = self.rng.below(3);
+                self.step(format!("mig_coll from={from}"), "mig_coll:rnd".into());
+            }
+            105..=106 => {
+                let vs = schema_variants(&self.sut.coll_root);
+                if !vs.is_empty() {
+                    let v = self.rng.pick(&vs).0.clone();
+                    if !KNOWN_COLL.contains(&v.as_str()) || v == "update_collection_info" {
+                        let s = self.non_minter_sender();
+                        let f = *self.rng.pick(&["-", "*"]);
+                        let k = self.rng.range(1, 3);
+                        self.coll_raw(&v, s, k, f);
+                    }
+                }
+            }
+            _ => {
+                let vs = Self::unknown_variants(&self.sut.minter_root, &KNOWN_MINTER);
+                if !vs.is_empty() {
+                    let v = self.rng.pick(&vs).clone();
+                    let s = self.some_sender();
+                    let f = *self.rng.pick(&[0u64, 0, 100_000_000]);
+                    self.minter_raw(&v, s, 1, f, "-");
+                }
+            }
         }
     }
     /// valid creation arguments for the current clock
     fn valid_create_args(&mut self) -> (u64, Option<u64>) {
-        let now = self.sh.now;
+        let now = self.now();
         let base = now.max(GENESIS);
         let start = match self.rng.below(4) {
             0 => base + 1,
@@ -634,8 +1393,8 @@ impl Gen<'_> {
         // up to three single-fault / boundary attempts, then a valid one (the first success ends the phase)
         for attempt in 0..4 {
             let (mut start, mut end) = self.valid_create_args();
-            let now = self.sh.now;
-            let off = self.sh.off;
+            let now = self.now();
+            let off = self.sut.g_off;
             let mut tag = "valid";
             if attempt < 3 && self.rng.chance(1, 2) {
                 match self.rng.below(6) {
@@ -682,6 +1441,11 @@ impl Gen<'_> {
     }
 }
 
+fn new_gen<'a>(ses: &'a mut Session, sut: &'a mut S, rng: Rng, kind: MinterKind, ci: u64, now0: u64, off0: u64) -> Gen<'a> {
+    let sh = Shadow { now: now0, off: off0, tr: None, start: None, end: None, creator: CREATOR };
+    Gen { ses, sut, rng, kind, ci, sh }
+}
+
 fn main() {
     let mut ses = Session::new("C19");
     let mut sut = S::new();
@@ -689,25 +1453,25 @@ fn main() {
         ses.finish(&mut sut);
     }
     let rng = ses.rng.fork();
-    let reps = ses.scale(20, 300);
+    let reps = ses.scale(18, 300);
     let n_ops = ses.scale(28, 40);
     let offsets: [u64; 8] = [0, 1, 59, 3600, 86_400, 604_800, 31_536_000, 999_999_937];
     let mut g_rng = rng;
 
     for kind in ALL_MINTERS {
+        let is_base = kind == MinterKind::Base;
         for ci in 0..4u64 {
             // ---------------- 1. the deterministic boundary grid of the property's quantifier
             for grid_variant in 0..ses.scale(1, 4) {
                 let now0 = GENESIS + (1 + grid_variant) * 3 * DAY + 17 + g_rng.below(1000);
                 let off0 = offsets[((kind.idx() as u64 + ci + grid_variant) % 6 + 1) as usize];
-                let header = format!("case grid kind={} coll={ci} now={now0} offset={off0}", kind.idx());
+                let header = format!("case grid kind={} coll={ci} now={now0} offset={off0} minter={MINTER_ID}", kind.idx());
                 ses.begin_case(&mut sut, &header);
-                let sh = Shadow { now: now0, off: off0, exists: false, tr: None, start: None, end: None, creator: CREATOR };
-                let mut g = Gen { ses: &mut ses, sut: &mut sut, rng: g_rng.fork(), kind, ci, sh };
+                let mut g = new_gen(&mut ses, &mut sut, g_rng.fork(), kind, ci, now0, off0);
                 let start = now0 + 2 * DAY;
                 let end = if kind.is_open_edition() { Some(start + 30 * DAY) } else { None };
                 // creation at bound+1 fails, then the grid variant picks the accepted creation value
-                if kind != MinterKind::Base {
+                if !is_base {
                     g.create(start, end, Some(start + off0 * NS + 1), "grid");
                 }
                 let tr0 = match grid_variant % 4 {
@@ -717,42 +1481,53 @@ fn main() {
                     _ => Some(start + off0 * NS - 1),
                 };
                 assert!(g.create(start, end, tr0, "grid"), "grid create failed {:?} {}", kind, ci);
-                g.six();
-                // stranger / old values
-                g.upd_trading(STRANGER, Some(g.sh.now), 0);
-                g.upd_trading(g.admin(), Some(g.sh.now), 1);
-                g.step(format!("coll_trading sender={STRANGER} t={}", g.sh.now + 5), "coll_trading:other".into());
-                g.step(format!("coll_trading sender={CREATOR} t=-"), "coll_trading:admin".into());
+                g.six("grid");
+                // same value: a stranger is refused, the admin accepted (same block, same state); funds refused
+                let t = g.now();
+                let s_ok = g.upd_trading(STRANGER, Some(t), 0);
+                let a_ok = g.upd_trading(g.admin(), Some(t), 0);
+                if !s_ok && a_ok {
+                    g.floor("upd-auth-pair");
+                }
+                g.upd_trading(g.admin(), Some(t), 0); // same-block repeat of an accepted update
+                g.upd_trading(g.admin(), Some(t), 1);
+                let d1 = g.step(format!("coll_trading sender={STRANGER} t={}", t + 5), "coll_trading:other".into());
+                let d2 = g.step(format!("coll_trading sender={CREATOR} t=-"), "coll_trading:admin".into());
+                if !d1 && !d2 {
+                    g.floor("coll-direct-refused");
+                }
                 // move the mint start earlier: the bound moves with it
-                g.step(format!("upd_start sender={CREATOR} t={} funds=0", start - DAY), "upd_start:grid-earlier".into());
-                g.six();
+                if g.step(format!("upd_start sender={CREATOR} t={} funds=0", start - DAY), "upd_start:grid-earlier".into()) {
+                    g.six("start-earlier");
+                }
                 // and later
-                g.step(format!("upd_start sender={CREATOR} t={} funds=0", start + DAY), "upd_start:grid-later".into());
-                g.six();
+                if g.step(format!("upd_start sender={CREATOR} t={} funds=0", start + DAY), "upd_start:grid-later".into()) {
+                    g.six("start-later");
+                }
                 // governance lowers, then raises the offset
-                g.step(format!("sudo_offset v={}", off0 / 2), "sudo_offset:down".into());
-                g.six();
-                g.step(format!("sudo_offset v={}", off0 * 2 + 7), "sudo_offset:up".into());
-                g.six();
-                g.step("sudo_offset v=-".into(), "sudo_offset:none".into());
+                g.step(format!("sudo_offset v={} bps=- extra=0", off0 / 2), "sudo_offset:down".into());
+                g.six("offset-down");
+                g.step(format!("sudo_offset v={} bps=- extra=0", off0 * 2 + 7), "sudo_offset:up".into());
+                g.six("offset-up");
+                g.step("sudo_offset v=- bps=- extra=0".into(), "sudo_offset:none".into());
                 // the clock reaches the bound exactly, then passes it
                 if let Some(b) = g.bound() {
-                    if b > g.sh.now {
+                    if b > g.now() {
                         g.step(format!("time t={}", b - 1), "time:bound-1".into());
-                        g.six();
+                        g.six("clock-bound-1");
                         g.step(format!("time t={b}"), "time:at-bound".into());
-                        g.six();
+                        g.six("clock-at-bound");
                         g.step(format!("time t={}", b + 1), "time:bound+1".into());
-                        g.six();
+                        g.six("clock-bound+1");
                     }
                 } else {
-                    let t = g.sh.now + 3 * DAY;
+                    let t = g.now() + 3 * DAY;
                     g.step(format!("time t={t}"), "time:other".into());
-                    g.six();
+                    g.six("clock-later");
                 }
                 // base-minter's admin is the collection's current creator
                 g.step(format!("coll_creator sender={CREATOR} new={CREATOR2}"), "coll_creator:creator".into());
-                let t = g.sh.now + 1;
+                let t = g.now() + 1;
                 g.upd_trading(CREATOR, Some(t), 0);
                 g.upd_trading(CREATOR2, Some(t), 0);
                 g.step(format!("coll_own sender={CREATOR2} act=0 new={CREATOR2}"), "coll_own:0".into());
@@ -767,15 +1542,14 @@ fn main() {
             {
                 let now0 = GENESIS + 9 * DAY + g_rng.below(1000);
                 let off0 = offsets[g_rng.below(offsets.len() as u64) as usize];
-                let header = format!("case spoof kind={} coll={ci} now={now0} offset={off0}", kind.idx());
+                let header = format!("case spoof kind={} coll={ci} now={now0} offset={off0} minter={MINTER_ID}", kind.idx());
                 ses.begin_case(&mut sut, &header);
-                let sh = Shadow { now: now0, off: off0, exists: false, tr: None, start: None, end: None, creator: CREATOR };
-                let mut g = Gen { ses: &mut ses, sut: &mut sut, rng: g_rng.fork(), kind, ci, sh };
+                let mut g = new_gen(&mut ses, &mut sut, g_rng.fork(), kind, ci, now0, off0);
                 let start = now0 + DAY;
                 let end = if kind.is_open_edition() { Some(start + DAY) } else { None };
                 assert!(g.create(start, end, None, "spoof"), "spoof create failed");
-                let mid = g.sut.expect_minter;
-                let t = g.sh.now + 77;
+                let mid = MINTER_ID;
+                let t = g.now() + 77;
                 g.step(format!("coll_trading sender={mid} t={t}"), "spoof:coll_trading:minter".into());
                 g.step(format!("coll_trading sender={mid} t=-"), "spoof:coll_trading:minter-none".into());
                 g.step(format!("coll_own sender={STRANGER} act=1 new={STRANGER}"), "spoof:accept-nothing-pending".into());
@@ -801,6 +1575,76 @@ fn main() {
                 ses.end_case();
             }
 
+            // ---------------- 1c. governance: an explicit offset, then PARTIAL updates that omit it (sudo and migrate), then a
+            // trading time one ns beyond mint start + the offset governance set — existing minter (A) and new minter (B, C)
+            {
+                let now0 = GENESIS + 5 * DAY + g_rng.below(1000);
+                let off0 = offsets[(g_rng.below(3) + 4) as usize];
+                // the explicit offsets: one below and one above the fee figures a partial update could confuse it with
+                for (label, small) in [("govA", 100u64), ("govA2", 5000)] {
+                    if label == "govA2" && ses.tier() == Tier::Quick && (kind.idx() as u64 + ci) % 2 == 1 {
+                        continue;
+                    }
+                    let header = format!("case {label} kind={} coll={ci} now={now0} offset={off0} minter={MINTER_ID}", kind.idx());
+                    ses.begin_case(&mut sut, &header);
+                    let mut g = new_gen(&mut ses, &mut sut, g_rng.fork(), kind, ci, now0, off0);
+                    let start = now0 + 2 * DAY;
+                    let end = if kind.is_open_edition() { Some(start + 30 * DAY) } else { None };
+                    assert!(g.create(start, end, None, "gov"), "gov create failed");
+                    g.step(format!("sudo_offset v={small} bps=1000 extra=0"), "sudo_offset:gov-explicit".into());
+                    g.six("gov-explicit");
+                    for (i, l) in ["sudo_offset v=- bps=- extra=1", "sudo_offset v=- bps=777 extra=0", "mig_factory v=- msg=1 bps=- extra=2", "sudo_offset v=- bps=- extra=3", "mig_factory v=- msg=0"].iter().enumerate() {
+                        if g.step(l.to_string(), format!("gov-partial:{i}")) && l.starts_with("mig_factory") {
+                            g.floor("mig-factory-ok");
+                        }
+                        g.six("gov-partial");
+                    }
+                    g.step(format!("mig_factory v={} msg=1 bps=- extra=0", small + 1), "mig_factory:gov-explicit".into());
+                    g.six("gov-migrate-explicit");
+                    g_rng = g.rng.fork();
+                    ses.end_case();
+                }
+                for (label, small, via_migrate) in [("govB", 100u64, false), ("govC", 5000, true)] {
+                    let header = format!("case {label} kind={} coll={ci} now={now0} offset={off0} minter={MINTER_ID}", kind.idx());
+                    ses.begin_case(&mut sut, &header);
+                    let mut g = new_gen(&mut ses, &mut sut, g_rng.fork(), kind, ci, now0, off0);
+                    g.step(format!("sudo_offset v={small} bps=1000 extra=0"), "sudo_offset:gov-explicit".into());
+                    let partial = if via_migrate { "mig_factory v=- msg=1 bps=- extra=1" } else { "sudo_offset v=- bps=- extra=2" };
+                    g.step(partial.to_string(), "gov-partial:pre-create".into());
+                    let start = now0 + DAY;
+                    let end = if kind.is_open_edition() { Some(start + 3 * DAY) } else { None };
+                    let b = start + small * NS;
+                    if label == "govB" && !is_base {
+                        let e = g.create(start, end, Some(b + 1), "gov-new-minter");
+                        let o = g.create(start, end, Some(b), "gov-new-minter");
+                        if !e && o {
+                            g.floor("create-bound-pair");
+                        }
+                    } else if g.create(start, end, None, "gov-new-minter") {
+                        g.floor("gov-default-ok");
+                    }
+                    g.six("gov-new-minter");
+                    g_rng = g.rng.fork();
+                    ses.end_case();
+                }
+            }
+
+            // ---------------- 1d. the message surface found in the schemas + migrations, then the boundary again
+            {
+                let now0 = GENESIS + 11 * DAY + g_rng.below(1000);
+                let off0 = offsets[(g_rng.below(3) + 3) as usize];
+                let header = format!("case surface kind={} coll={ci} now={now0} offset={off0} minter={MINTER_ID}", kind.idx());
+                ses.begin_case(&mut sut, &header);
+                let mut g = new_gen(&mut ses, &mut sut, g_rng.fork(), kind, ci, now0, off0);
+                let start = now0 + DAY;
+                let end = if kind.is_open_edition() { Some(start + 9 * DAY) } else { None };
+                assert!(g.create(start, end, Some(start + 5), "surface"), "surface create failed");
+                g.surface();
+                g.six("after-surface");
+                g_rng = g.rng.fork();
+                ses.end_case();
+            }
+
             // ---------------- 2. random traces: mostly valid ops, single-fault mutations, boundary instants
             for rep in 0..reps {
                 let now0 = match g_rng.below(6) {
@@ -810,15 +1654,15 @@ fn main() {
                     _ => GENESIS + g_rng.below(400) * DAY + g_rng.below(NS),
                 };
                 let off0 = offsets[g_rng.below(offsets.len() as u64) as usize];
-                let header = format!("case rnd{rep} kind={} coll={ci} now={now0} offset={off0}", kind.idx());
+                let header = format!("case rnd{rep} kind={} coll={ci} now={now0} offset={off0} minter={MINTER_ID}", kind.idx());
                 ses.begin_case(&mut sut, &header);
-                let sh = Shadow { now: now0, off: off0, exists: false, tr: None, start: None, end: None, creator: CREATOR };
-                let mut g = Gen { ses: &mut ses, sut: &mut sut, rng: g_rng.fork(), kind, ci, sh };
+                let mut g = new_gen(&mut ses, &mut sut, g_rng.fork(), kind, ci, now0, off0);
                 // ops before any minter exists
                 if g.rng.chance(1, 3) {
                     g.step(format!("upd_trading sender={CREATOR} t=- funds=0"), "upd_trading:no-minter".into());
                     let v = g.random_offset();
-                    g.step(format!("sudo_offset v={}", fmt_opt(&v)), "sudo_offset:pre-create".into());
+                    let l = g.sudo_line(v);
+                    g.step(l, "sudo_offset:pre-create".into());
                 }
                 g.creation_phase();
                 for _ in 0..n_ops {
@@ -829,7 +1673,29 @@ fn main() {
             }
         }
     }
-    ses.note("requested trading times: none, now-1, now, bound-1, bound, bound+1 (+ random in [now,bound], far future, 0) at clock values incl. start±1ns, bound±1ns, stored value±1ns; after UpdateStartTime moves (earlier/later, onto tr-offset) and sudo offset changes (down/up/none, onto the stored value); 11 minter crates x 4 collection crates, all created through the factory; direct collection calls by admin/creator/stranger/factory/collection itself (never by the minter contract's address)");
+
+    // ---------------- coverage floor: without these the run would be vacuous (per minter crate, every seed)
+    for kind in ALL_MINTERS {
+        let n = kind.name();
+        let mut need = vec!["create-ok", "create-default-ok", "upd-now-pair", "upd-none-ok", "upd-auth-pair", "coll-direct-refused", "gov-default-ok", "gov-explicit-", "gov-partial-", "gov-migrate-explicit-", "gov-new-minter-", "after-surface-", "mig-factory-ok", "mig-coll-ok", "raw-coll-ok"];
+        if kind == MinterKind::Base {
+            need.push("upd-far-future-ok");
+        } else {
+            need.extend(["upd-bound-pair", "create-bound-pair", "start-earlier-bound-pair", "start-later-bound-pair", "offset-down-bound-pair", "offset-up-bound-pair", "mig-minter-ok", "raw-minter-ok"]);
+        }
+        for t in need {
+            ses.require(format!("floor:{n}:{t}"));
+        }
+    }
+    ses.require("surface:coll:sg721-base:");
+    ses.require("surface:coll:sg721-updatable:");
+    ses.require("surface:coll:sg721-nt:");
+    ses.require("surface:coll:sg721-metadata-onchain:");
+    ses.note("requested trading times: none, now-1, now, bound-1, bound, bound+1 (+ random in [now,bound], far future, 0) at clock values incl. start±1ns, bound±1ns, stored value±1ns; after UpdateStartTime moves (earlier/later, onto tr-offset) and governance offset changes by sudo AND by factory migrate (down/up/omitted in a partial update that changes another field); 11 minter crates x 4 collection crates, all created through the factory; direct collection calls by admin/creator/stranger/factory/collection itself (never by the minter contract's address outside the `spoof` cases)");
+    ses.note("bound used by generator and monitors = the harness's own record (requested mint start, last explicitly set offset), never a query answer; `upd_trading:none:ok` in the distribution counts accepted UpdateStartTradingTime(None) (clears the value, accepted at every clock value — see C19_none_clears)");
+    ses.note("message surface enumerated at run time from the crates' JSON schemas (classes surface:*); unknown variants are sent raw under the visible/not-validated and ownership monitors; migrations of factory (null / partial / explicit params), minter and collection (same version and from rewritten cw2 versions 3.0.0 / 2.0.0)");
+    std::fs::create_dir_all(&ses.args.out).ok();
+    std::fs::write(ses.args.out.join("classes.txt"), ses.classes.iter().cloned().collect::<Vec<_>>().join("\n")).ok();
     ses.note("times < 2^62 ns, offsets < 10^9 s: u64 overflow of plus_seconds is outside the model");
     ses.finish(&mut sut);
 }
